@@ -258,7 +258,7 @@ def mpoly_case(rng, op):
 
 
 def generate(rng, tier, corpus_only=False):
-    n = 1.5 if tier == "quick" else 8
+    n = 1.2 if tier == "quick" else 8
     cases = []
     plan = [("ufac", 0, int(170 * n)), ("usqf", 0, int(110 * n)), ("msqf", None, int(90 * n)), ("mcf", None, int(40 * n))]
     for p in PRIMES:
